@@ -73,3 +73,13 @@ pub fn set_thread_prefix(p: String) {
 pub fn thread_prefix() -> String {
     THREAD_PREFIX.with(|t| t.borrow().clone())
 }
+
+/// Runs `fut` until it completes or until quiescence is reached (nothing can make progress any more
+/// without a timer or an external action), in which case `None` is returned and `fut` is dropped.
+pub async fn or_quiescent<F: Future>(fut: F) -> Option<F::Output> {
+    tokio::select! {
+        biased;
+        v = fut => Some(v),
+        _ = settle() => None,
+    }
+}
